@@ -570,6 +570,8 @@ class Threads(EngineBase):
                             "inc": [rng.randrange(0, 900)
                                     for _ in range(16)]}})
                     ops.append({"op": "net"})
+                    if rng.random() < 0.25:
+                        ops.append({"op": "clear"})
                 threads.append(ops)
         plan = {"prog": prog, "world": world, "threads": threads,
                 "preempt": [], "ops": []}
@@ -606,6 +608,15 @@ class Threads(EngineBase):
         if prog == "C16t":
             k.begin_op(0)
             shared["p"] = psutil.Process(T)
+            k.end_op()
+        if prog == "C04t":
+            # warm the cache sequentially: objects of PIDs that stay listed,
+            # are never flagged and see no cache_clear() must survive
+            # whatever the two threads do afterwards
+            k.begin_op(0)
+            shared["warm"] = {p_.pid: (p_, k.procs[p_.pid].inc)
+                              for p_ in psutil.process_iter()
+                              if p_.pid in k.procs}
             k.end_op()
         records = [[] for _ in range(nthreads)]
         scratch = W.scratch + "/psutil/"
@@ -645,6 +656,7 @@ class Threads(EngineBase):
                     raise e
                 V(prog[:3] + ".thread_crash", [type(e).__name__], prog,
                   "thread %d died with %r" % (t, e))
+        self._shared = shared
         checker = getattr(self, "check_" + prog)
         checker(W, psutil, k, plan, records, V, probes, keys)
         crit = [f for f in fp if any(s in f[2] for s in (
@@ -737,8 +749,13 @@ class Threads(EngineBase):
                 rec["out"] = ("value", fn(interval=op["interval"],
                                           percpu=op["percpu"]))
             elif prog == "C10t":
-                rec["out"] = ("value", psutil.net_io_counters(pernic=True,
-                                                              nowrap=True))
+                if kind == "clear":
+                    psutil.net_io_counters.cache_clear()
+                    rec["out"] = ("value", {"eth0": None})
+                    rec["is_clear"] = True
+                else:
+                    rec["out"] = ("value", psutil.net_io_counters(
+                        pernic=True, nowrap=True))
         except BaseException as e:  # noqa: BLE001
             if is_harness_exc(e) or type(e).__name__ == "_Abort":
                 raise
@@ -858,6 +875,36 @@ class Threads(EngineBase):
                     if [x for x in pl if x not in ever]:
                         V("C04.iter_listed", ["two_threads"], "process_iter",
                           "thread %d yielded unknown pids %r" % (t, pl))
+        # identity through the threads
+        cleared = any(op["op"] == "cache_clear" for th in plan["threads"]
+                      for op in th)
+        touched = {op["ev"].get("pid") for th in plan["threads"]
+                   for op in th if op["op"] == "ev"}
+        if not cleared:
+            for t, recs in enumerate(records):
+                for rec in recs:
+                    if rec["op"]["op"] != "iter" or rec.get("out", (0,))[0] \
+                            != "value":
+                        continue
+                    for o in rec["out"][1]:
+                        w = self._shared.get("warm", {}).get(o.pid)
+                        if w is None or o.pid in touched:
+                            continue
+                        cur = k.procs.get(o.pid)
+                        if cur is None or cur.inc != w[1]:
+                            continue
+                        if o is not w[0]:
+                            V("C04.identity", ["two_threads",
+                                               "object_replaced"],
+                              "process_iter", "thread %d: pid %d stayed "
+                              "listed (same process, never flagged, no "
+                              "cache_clear) but a different object than the "
+                              "cached one was yielded" % (t, o.pid))
+                            break
+                    else:
+                        probes["identity_through_threads_checked"] = \
+                            probes.get("identity_through_threads_checked",
+                                       0) + 1
         # eventual coherence: two further sequential iterations agree
         k.begin_op(9000)
         try:
@@ -997,6 +1044,8 @@ class Threads(EngineBase):
                                                               out[1]))
                 continue
             got = out[1]
+            if rec.get("is_clear"):
+                continue
             if set(got) != {"eth0"}:
                 V("C10.value", ["threads", "shape"], "net_io_counters",
                   "%r" % (got,))
@@ -1142,7 +1191,8 @@ Threads.PROBES_BY_PROP = {
     "C16": ["same_answer_checked", "served_from_cache_while_changed",
             "nested_enter", "call_right_after_exit", "valid_value_checked",
             "voluntary_switches", "block_exit_exit_exc"],
-    "C04": ["voluntary_switches", "eventual_coherence_checked"],
+    "C04": ["voluntary_switches", "eventual_coherence_checked",
+            "identity_through_threads_checked", "stale_objects_rechecked"],
     "C07": ["voluntary_switches", "per_thread_checked"],
     "C10": ["voluntary_switches", "concurrent_checked", "lock_contended"],
 }
